@@ -106,8 +106,10 @@ def inline(*qualnames):
     REG.inline.update(qualnames)
 
 
-def prop(pid, fucs=(), lemmas=(), notes=None):
-    d = REG.props.setdefault(pid, dict(fucs=[], lemmas=[], notes=[]))
+def prop(pid, fucs=(), lemmas=(), notes=None, static=()):
+    d = REG.props.setdefault(pid, dict(fucs=[], lemmas=[], notes=[], static=[]))
+    d.setdefault("static", [])
+    d["static"] += list(static)
     d["fucs"] += list(fucs)
     d["lemmas"] += list(lemmas)
     if notes:
